@@ -162,7 +162,9 @@ def printed(tok, want):
         dec = len(mant.split(".")[1]) if "." in mant else 0
         return abs(v - want) <= 0.51 * 10.0 ** (-dec) * 10.0 ** np.floor(np.log10(max(abs(want), 1e-300)))
     dec = len(tok.split(".")[1]) if "." in tok else 0
-    return abs(v - want) <= 0.51 * 10.0 ** (-dec) + 1e-9 * abs(want)
+    # a number wider than its column is cut to the column width (7 characters in the pin tables), i.e. truncated
+    unit = 1.0 if len(tok) >= 7 else 0.51
+    return abs(v - want) <= unit * 10.0 ** (-dec) + 1e-9 * abs(want)
 
 
 def check_tables(o, txt, r, recs, Lc=1.0, Tc=lambda T: T):
